@@ -1,5 +1,6 @@
 import RSV.Driver.Util
 import RSV.Model.Api
+import RSV.Model.Options
 /-! `api`, `new`, `newstream` ops: outcome classes of the API model -/
 namespace Drv
 open RSV.Model RSV.Model.Api
@@ -99,6 +100,29 @@ def opApi (args : List String) : String :=
       | "alloc", [_e] => s!"ok {d + p}"
       | _, _ => "bad-op"
     | _, _ => "bad-op"
+  | _ => "bad-op"
+
+
+-- opts <l1d> <l2> <tpc> <phys> <gomaxprocs> <caps> <d> <p> <optflags>; caps = "avx2=1,gfni=1,avxgfni=1,codegen=1,pshufb=1"
+def opOpts (args : List String) : String :=
+  match args with
+  | [l1s, l2s, tpcs, phs, gms, caps, ds, ps, fl] =>
+    match l1s.toInt?, l2s.toInt?, tpcs.toInt?, phs.toInt?, gms.toInt?, ds.toInt?, ps.toInt? with
+    | some l1d, some l2, some tpc, some phys, some gmp, some d, some p =>
+      let cap (k : String) : Bool := (caps.splitOn ",").contains (k ++ "=1")
+      let ts := if fl == "-" then [] else fl.splitOn ","
+      let off (k : String) : Bool := ts.contains k || ts.contains "nosimd"
+      let useAVX2 := cap "avx2" && !off "avx2-"
+      let gfni := (cap "gfni" && !off "gfni-") || (cap "avxgfni" && !off "avxgfni-")
+      let num (pre : String) : Option Int := (ts.find? (·.startsWith pre)).bind fun t => (t.drop pre.length).toString.toInt?
+      let g0 : Int := match num "g=" with | some n => if n > 0 then n else (if gmp ≤ 1 then 1 else 384) | none => if gmp ≤ 1 then 1 else 384
+      let ms0 : Int := match num "ms=" with | some n => if n > 0 then n else -1 | none => -1
+      let ag : Int := (num "ag=").getD 0
+      if p ≤ 0 || d ≤ 0 then "err InvShardNum" else
+      let o := Options.derive ⟨l1d, l2, tpc, phys, gmp⟩
+        ⟨d, p, g0, ms0, ag, cap "codegen" && cap "pshufb" && useAVX2, cap "codegen" && gfni⟩
+      s!"ok {o.perRound} {o.minSplitSize} {o.maxGoroutines}"
+    | _, _, _, _, _, _, _ => "bad-op"
   | _ => "bad-op"
 
 end Drv
